@@ -946,6 +946,19 @@ def fileStr (fs : FS) (p : Bytes) : String := match fsGet fs p with | none => "n
 def stateStr (fs : FS) (path : Bytes) : String :=
   s!"out={fileStr fs path};tmp={fileStr fs (path ++ TMP)};query={fileStr fs (path ++ QUERYEXT)};qtmp={fileStr fs (path ++ QUERYEXT ++ TMP)}"
 
+/-- the files a killed run left, as the harness reports them (`out=…;tmp=…;query=…;qtmp=…`, each `none`, `-` or hex) -/
+def obsState (path : Bytes) (observed : String) : Option FS :=
+  let file (tag : String) (p : Bytes) (s : String) : Option FS :=
+    if !s.startsWith (tag ++ "=") then none else
+    let v := (s.drop (tag.length + 1)).toString
+    if v = "none" then some [] else if v = "-" then some [(p, [])] else (unhex v).map fun c => [(p, c)]
+  match observed.splitOn ";" with
+  | [a, b, c, d] =>
+    match file "out" path a, file "tmp" (path ++ TMP) b, file "query" (path ++ QUERYEXT) c, file "qtmp" (path ++ QUERYEXT ++ TMP) d with
+    | some x, some y, some z, some w => some (x ++ y ++ z ++ w)
+    | _, _, _, _ => none
+  | _ => none
+
 /-- tie G: `GroupSet.WriteResult` as translated from the working tree on this run, on the same request: the file operations it
     records (none of them failing, `os.Stat` answering for `fs0`) as operations of the model -/
 def c15translated (fs0 : FS) (r : OutReq) : Option (List FOp) :=
@@ -1029,7 +1042,13 @@ def opC15Write : List String → Res
             let states := (List.range (ops.length + 1)).map fun k => applyOps fs0 (ops.take k)
             let hit := states.find? (fun fs => stateStr fs path == observed)
             { m := if genBad then "TRANSLATED-WRITERESULT-DIFFERS-FROM-MODEL" else match hit with | some _ => "killed;" ++ observed | none => "killed;NOT-A-PREFIX-STATE",
-              s := match hit with | some fs => if okState fs then "killed;" ++ observed else "killed;PROPERTY-VIOLATED" | none => "-",
+              s := match hit with
+                | some fs => if okState fs then "killed;" ++ observed else "killed;PROPERTY-VIOLATED"
+                | none =>
+                  -- not a state of the model's run: the property's own statement is evaluated on the files that were observed
+                  match obsState path observed with
+                  | some fs => if okState fs then "-" else "killed;PROPERTY-VIOLATED"
+                  | none => "-",
               t := "kill" }
         | none => { m := "no-outfile" }
       | _ => { m := "query-error" }
